@@ -28,7 +28,7 @@ def fxs(names, tag):
 
 def variants(kind, rng):
     """(disk, buffer, further) texts for F"""
-    if kind == "conftest":
+    if kind in ("conftest", "plugin_conftest"):
         disk = HDR + fxs(["shared", "disk_only"], "disk")
         buf = HDR + fxs(["shared", "buf_only"], "buffer") + "\n"
         further = HDR + "\n" + fxs(["shared", "third"], "further")
@@ -217,7 +217,7 @@ def server_level(ctx, quick):
     orders_seen = set()
     n = 3 if quick else 40
     for it in range(n):
-        for kind in ("conftest", "test", "plugin_pkg"):
+        for kind in ("conftest", "test", "plugin_pkg", "plugin_conftest"):
             for placement in ("open_first", "visit_first", "unsynchronised", "burst"):
                 for further_kind in ("new_text", "disk_text"):
                     if quick and (it + hash_str(kind + placement + further_kind)) % 3 != 0 and not (it == 0):
@@ -231,7 +231,8 @@ def server_level(ctx, quick):
 def one_server_run(ctx, kind, placement, further_kind, orders_seen, it):
     root = ctx.scratch("srv")
     disk, buf, further = variants(kind, ctx.rng)
-    rel = {"conftest": "pkg/conftest.py", "test": "pkg/test_f.py", "plugin_pkg": "myplug/test_inside.py"}[kind]
+    rel = {"conftest": "pkg/conftest.py", "test": "pkg/test_f.py", "plugin_pkg": "myplug/test_inside.py",
+           "plugin_conftest": "myplug/conftest.py"}[kind]
     files = {rel: disk, "pkg/test_other.py": HDR + fxs(["shared"], "other") + "def test_o(shared):\n    pass\n",
              "conftest.py": HDR + fxs(["shared"], "root")}
     if kind == "plugin_pkg":
@@ -253,7 +254,16 @@ def one_server_run(ctx, kind, placement, further_kind, orders_seen, it):
     env = {"VERIF_EVENT_LOG": evlog, "VERIF_DELAY": f"{ctx.seed + it}:200000"}
     if placement not in ("unsynchronised", "burst"):
         env.update({"VERIF_SCAN_GATE": gate, "VERIF_SCAN_GATE_MATCH": "/" + rel})
-    hold_phase = kind == "plugin_pkg" and placement == "visit_first"
+    if kind == "plugin_conftest":
+        # F is a conftest.py that the entry-point module of an editable in-workspace plugin star-imports: the scan's import
+        # phase marks it as a plugin module and analyses it once more, long after the parallel phase visited it
+        sp = ".venv/lib/python3.12/site-packages"
+        files.update({"myplug/__init__.py": "", "myplug/plugin.py": "from .conftest import *\n" + HDR + fxs(["from_plugin_mod"], "plugin"),
+                      "myplug/test_in_pkg.py": "def test_in_pkg(shared):\n    pass\n",
+                      f"{sp}/myplug-0.1.dist-info/entry_points.txt": "[pytest11]\nmp = myplug.plugin\n",
+                      f"{sp}/myplug-0.1.dist-info/direct_url.json": json.dumps({"url": "file://" + root, "dir_info": {"editable": True}}),
+                      f"{sp}/__editable__.myplug-0.1.pth": root + "\n", ".venv/pyvenv.cfg": "home = /usr/bin\n"})
+    hold_phase = kind in ("plugin_pkg", "plugin_conftest") and placement == "visit_first"
     if hold_phase:
         # the editor's change arrives after the scan's parallel phase visited F but before its venv / plugin phase
         env["VERIF_SCAN_PHASE_GATE"] = gate
